@@ -124,6 +124,7 @@ def check(run, replay):
     parse_streams(run, model, vh, quick)
     pairing_stream(run, model, vh, quick)
     dispatch_stream(run, model, vh, quick)
+    inline_file_stream(run, model, vh, quick)
     documented_forms(run)
 
 
@@ -223,6 +224,35 @@ def dispatch_stream(run, model, vh, quick):
                               "inline comment %r: model %s, preprocessor %s" % (c, vlib.show(m), vlib.show(i)),
                               {"comment": vlib.show(c), "model": vlib.show(m), "impl": vlib.show(i),
                                "how": "build/harness/vh_c23 inlsup on the 4-line source (hex encoded)"})
+
+
+def inline_file_stream(run, model, vh, quick):
+    """addInlineSuppressions over whole files: model (Supp/InlineDefs.v, on the token sequence) vs Preprocessor::inlineSuppressions"""
+    import hashlib
+    rng = run.rng
+    stream = "addInlineSuppressions (whole file: placement, file/macro/unique/block, thisAndNextLine)"
+    n = 2500 if quick else 60000
+    srcs = list({b"\n".join(l): l for l in (G.gen_inline_source(rng) for _ in range(n))}.values())
+    rc1, mo, me = vlib.run_lines([model], [vlib.enc_case(["inline"] + G.flat(G.tokenize_lines(l))) for l in srcs])
+    rc2, io, ie = vlib.run_lines([vh, "inlsup"], [vlib.enc_case([b"\n".join(l) + b"\n"]) for l in srcs])
+    if rc1 != 0 or len(mo) != len(srcs) or len(io) != len(srcs):
+        raise vlib.BuildError("inline stream failed: %s %s" % (me[-300:], ie[-300:]))
+    shown = 0
+    for l, a, b in zip(srcs, mo, io):
+        m, i = vlib.dec_line(a), vlib.dec_line(b)
+        types = sorted(set(m[k + 2].decode() for k in range(1, len(m), 7)))
+        nxt = any(m[k + 6] == b"1" for k in range(1, len(m), 7))
+        run.count(stream, None, nontrivial=b"\n".join(l), bucket="n%d,types%s%s" % (min((len(m) - 1) // 7, 4), "".join(types), ",next" if nxt else ""))
+        if m != i:
+            run.stream(stream)["disagreements"] += 1
+            shown += 1
+            if shown <= 2:
+                src = b"\n".join(l) + b"\n"
+                run.violation("inlinefile:" + hashlib.sha1(src).hexdigest()[:12],
+                              "inline suppressions of a file: model %s, preprocessor %s" % (vlib.show(m), vlib.show(i)),
+                              {"source": src.decode("latin-1"), "model": vlib.show(m), "impl": vlib.show(i),
+                               "fields": "bad count, then per suppression: id symbol type line begin end thisAndNextLine",
+                               "how": "echo <hex of source> | build/harness/vh_c23 inlsup"})
 
 
 def documented_forms(run):
